@@ -112,3 +112,30 @@ func c06Process(nwords, maxLen int) {
 
 func VerifHarness_C06_Process1() { c06Process(1, 4) }
 func VerifHarness_C06_Process2() { c06Process(2, 3) }
+
+// sentences with several verbs and a target: reading the expansion leaves the analysis as it was
+func VerifHarness_C06_ProcessSentences() {
+	q := []string{"find and delete files", "copy or move files to another folder", "search and replace text then compress and extract archive", "list show view file"}[verifIntRange("sentence", 0, 3)]
+	pq := NewQueryProcessor().ProcessQuery(q)
+	acts := append([]string(nil), pq.Actions...)
+	tgts := append([]string(nil), pq.Targets...)
+	kws := append([]string(nil), pq.Keywords...)
+	c06CheckEnhanced(pq)
+	same := func(a, b []string) bool {
+		if len(a) != len(b) {
+			return false
+		}
+		for k := range a {
+			if a[k] != b[k] {
+				return false
+			}
+		}
+		return true
+	}
+	verifAssert(same(acts, pq.Actions) && same(tgts, pq.Targets) && same(kws, pq.Keywords), "C06: analysing the same text twice gives the same analysis (reading the expansion does not modify it)")
+	fresh := NewQueryProcessor().ProcessQuery(q)
+	verifAssert(same(fresh.Actions, pq.Actions) && same(fresh.Targets, pq.Targets), "C06: analysing the same text twice gives the same analysis")
+	e1, e2 := pq.GetEnhancedKeywords(), fresh.GetEnhancedKeywords()
+	verifAssert(same(e1, e2), "C06: expanding twice gives the same list")
+	verifReach("checked")
+}
